@@ -6,8 +6,8 @@ export GOFLAGS=-mod=mod GOPROXY=off
 ID=$1; M=$2; MOD=$3; PKG=$4; RX=$5; shift 5
 R=/tmp/seed/$ID/repo; O=/tmp/seed/$ID/out/$M; L=/tmp/seed/$ID/out/$M/confirm.log
 : > $L
-git -C $R checkout -q -- . && git -C $R clean -fdq
-cp $O/demo/*_test.go $R/$MOD/$PKG/ 2>/dev/null
+git -C $R checkout -q -- . && git -C $R clean -fdq && git -C $R checkout -q --detach $(git -C /repo rev-parse HEAD)
+mkdir -p $R/$MOD/$PKG; cp $O/demo/*_test.go $R/$MOD/$PKG/ 2>/dev/null
 (cd $R/$MOD && go test -vet=off -count=1 -run "$RX" ./$PKG/ ) >> $L 2>&1; clean_rc=$?
 git -C $R apply $O/patch.diff || { echo "PATCH DOES NOT APPLY"; exit 2; }
 (cd $R && go build ./... ) >> $L 2>&1; b1=$?
@@ -20,4 +20,4 @@ echo "SEED $ID/$M: demo clean rc=$clean_rc (want 0), build root=$b1 cli=$b2 (wan
 for c in "$@"; do
   (cd /verif && VERIF_REPO=$R ./check $c --tier quick 2>&1 | grep -E "VIOLATION|KNOWN|class=|quick:|broken" | cut -c1-300)
 done
-git -C $R checkout -q -- . && git -C $R clean -fdq
+git -C $R checkout -q -- . && git -C $R clean -fdq && git -C $R checkout -q --detach $(git -C /repo rev-parse HEAD)
